@@ -278,6 +278,20 @@ fn date_sufficient(m: &[bool; NF], gy: Grp, gi: Grp) -> bool {
     (gy == Grp::Determinate && ((m[MONTH] && m[DAY]) || m[ORD] || (m[WSUN] && m[WDAY]) || (m[WMON] && m[WDAY])))
         || (gi == Grp::Determinate && m[IWEEK] && m[WDAY])
 }
+/// `DateSufficient` / `TimeSufficient` of Spec/ParsedSpec.lean by field PRESENCE (any record)
+fn present_date_sufficient(f: &Fields) -> bool {
+    let p = |i: usize| f[i].is_some();
+    let usable = |y: usize| !(!p(y) && p(y + 1) && !p(y + 2));
+    let has_year = |y: usize| p(y) || p(y + 2);
+    usable(YEAR)
+        && usable(IYEAR)
+        && ((has_year(YEAR) && ((p(MONTH) && p(DAY)) || p(ORD) || (p(WSUN) && p(WDAY)) || (p(WMON) && p(WDAY))))
+            || (has_year(IYEAR) && p(IWEEK) && p(WDAY)))
+}
+fn present_time_sufficient(f: &Fields) -> bool {
+    let p = |i: usize| f[i].is_some();
+    p(HDIV) && p(HMOD) && p(MIN) && (!p(NANO) || p(SEC))
+}
 fn time_sufficient(m: &[bool; NF]) -> bool {
     m[HDIV] && m[HMOD] && m[MIN] && (!m[NANO] || m[SEC])
 }
@@ -397,6 +411,9 @@ struct Case {
     class: &'static str,
     /// offset to resolve with when there is no unperturbed real value
     hint: Option<i32>,
+    /// class derived-leap-plus-one: the leap-second value the fields were derived from, the timestamp
+    /// field being that of the FOLLOWING second (the documented allowance)
+    plus_one: Option<(NaiveDateTime, i32)>,
 }
 
 fn run_case(c: &mut Ctx, case: &Case, offs: &[i32]) {
@@ -505,6 +522,49 @@ fn run_case(c: &mut Ctx, case: &Case, offs: &[i32]) {
         if r.is_err() {
             c.fail("to_naive_datetime_with_offset panicked", &format!("[{}] off {}", dump, off));
         }
+        // which error (every record; theorems datetime_error_kinds / datetime_not_enough_iff): judged from
+        // the results of the two component resolvers and from field presence only
+        if !s.starts_with("panic") && !sd.starts_with("panic") && !stt.starts_with("panic") {
+            let both = sd.starts_with("ok") && stt.starts_with("ok");
+            if f[TS].is_none() {
+                let want = if sd.starts_with("err") {
+                    sd.clone()
+                } else if stt.starts_with("err") {
+                    stt.clone()
+                } else {
+                    format!("ok {} {}", &sd[3..], &stt[3..])
+                };
+                c.count("kinds:dt:no-timestamp");
+                if s != want {
+                    c.fail("to_naive_datetime_with_offset without timestamp: not the date's error, else the time's error, else the pair", &format!("[{}] off {} -> {} (date {}, time {})", dump, off, s, sd, stt));
+                }
+            } else if !both {
+                let oor = sd == "err OutOfRange" || stt == "err OutOfRange";
+                let imp = sd == "err Impossible" || stt == "err Impossible";
+                if oor {
+                    c.count("kinds:dt:ts:out-of-range-first");
+                    if s != "err OutOfRange" {
+                        c.fail("to_naive_datetime_with_offset with timestamp: an out-of-range field must be reported as OutOfRange", &format!("[{}] off {} -> {}", dump, off, s));
+                    }
+                } else if imp {
+                    c.count("kinds:dt:ts:impossible-first");
+                    if s != "err Impossible" {
+                        c.fail("to_naive_datetime_with_offset with timestamp: contradicting fields must be reported as Impossible", &format!("[{}] off {} -> {}", dump, off, s));
+                    }
+                } else {
+                    c.count("kinds:dt:ts:fallback");
+                }
+            }
+            if s == "err NotEnough" {
+                c.count(if f[TS].is_some() { "kinds:dt:not-enough:with-timestamp" } else { "kinds:dt:not-enough:no-timestamp" });
+                if present_date_sufficient(f) && present_time_sufficient(f) {
+                    c.fail("to_naive_datetime_with_offset: NotEnough for a set holding a sufficient date and time combination", &format!("[{}] off {}", dump, off));
+                }
+                if f[TS].is_some() && !(f[IYEAR].is_none() && f[IDIV].is_some() && f[IMOD].is_none()) {
+                    c.fail("to_naive_datetime_with_offset: NotEnough although a timestamp is supplied (and the ISO year group is not century-only)", &format!("[{}] off {}", dump, off));
+                }
+            }
+        }
     }
     // ---- to_datetime ----
     let rz = guard(|| p.to_datetime());
@@ -524,9 +584,37 @@ fn run_case(c: &mut Ctx, case: &Case, offs: &[i32]) {
     if rz.is_err() {
         c.fail("to_datetime panicked", &dump);
     }
+    // which error (theorems to_datetime_error_kinds / to_datetime_not_enough_iff)
+    if !szs.starts_with("panic") {
+        if f[OFF].is_none() && f[TS].is_none() {
+            c.count("kinds:datetime:no-offset-no-timestamp");
+            if szs != "err NotEnough" {
+                c.fail("to_datetime: neither offset nor timestamp must be NotEnough", &format!("[{}] -> {}", dump, szs));
+            }
+        } else {
+            let o = f[OFF].unwrap_or(0) as i32;
+            let rn = guard(|| p.to_naive_datetime_with_offset(o));
+            let sn = show(rn.clone(), sdt);
+            if sn.starts_with("err") {
+                c.count("kinds:datetime:naive-error");
+                if szs != sn {
+                    c.fail("to_datetime: the error of the naive stage must be passed on", &format!("[{}] -> {} (naive stage at {}: {})", dump, szs, o, sn));
+                }
+            } else if let Ok(Ok(l)) = &rn {
+                let valid = -86400 < o && o < 86400;
+                let rep = valid && l.checked_sub_offset(FixedOffset::east_opt(o).unwrap()).is_some();
+                let want_kind = if !valid { "err OutOfRange" } else if !rep { "err Impossible" } else { "ok" };
+                c.count(&format!("kinds:datetime:naive-ok:{}", kind_of(want_kind)));
+                if !szs.starts_with(want_kind) {
+                    c.fail("to_datetime: wrong outcome after a successful naive stage", &format!("[{}] -> {} (expected {})", dump, szs, want_kind));
+                }
+            }
+        }
+    }
     // ---- to_datetime_with_timezone (fixed zones, incl. Utc) ----
     let z = match (case.real, c.rng.below(3)) {
         (Some((_, o)), 0 | 1) => o,
+        (None, 0 | 1) if case.class == "zone-stage" => case.hint.unwrap(),
         (_, 2) => 0,
         _ => gen_offset(c),
     };
@@ -553,6 +641,45 @@ fn run_case(c: &mut Ctx, case: &Case, offs: &[i32]) {
     }
     if rw.is_err() {
         c.fail("to_datetime_with_timezone panicked", &format!("[{}] tz {}", dump, z));
+    }
+    // which error (theorems to_datetime_with_timezone_error_kinds / …_not_enough_iff)
+    if !sw.starts_with("panic") {
+        let guessed = match f[TS] {
+            None => Some(0),
+            Some(ts) => {
+                let n = f[NANO].unwrap_or(0);
+                // representable instant: inside [MIN_UTC, MAX_UTC], sub-second count below 10^9 (or a leap
+                // second representation on a second :59)
+                let rep = (MIN_TS..=MAX_TS).contains(&ts) && (n < 1_000_000_000 || (n < 2_000_000_000 && ts.rem_euclid(60) == 59));
+                if rep { Some(z) } else { None }
+            }
+        };
+        match guessed {
+            None => {
+                c.count("kinds:tz:timestamp-unrepresentable");
+                if sw != "err OutOfRange" {
+                    c.fail("to_datetime_with_timezone: an unrepresentable timestamp must be OutOfRange", &format!("[{}] tz {} -> {}", dump, z, sw));
+                }
+            }
+            Some(g) => {
+                let rn = guard(|| p.to_naive_datetime_with_offset(g));
+                let sn = show(rn.clone(), sdt);
+                if sn.starts_with("err") {
+                    c.count("kinds:tz:naive-error");
+                    if sw != sn {
+                        c.fail("to_datetime_with_timezone: the error of the naive stage must be passed on", &format!("[{}] tz {} -> {} (naive stage at {}: {})", dump, z, sw, g, sn));
+                    }
+                } else if let Ok(Ok(l)) = &rn {
+                    let rep = l.checked_sub_offset(tz).is_some();
+                    let off_ok = f[OFF].map_or(true, |o| o == z as i64);
+                    let want_kind = if rep && off_ok { "ok" } else { "err Impossible" };
+                    c.count(&format!("kinds:tz:naive-ok:{}", kind_of(want_kind)));
+                    if !sw.starts_with(want_kind) {
+                        c.fail("to_datetime_with_timezone: wrong outcome after a successful naive stage", &format!("[{}] tz {} -> {} (expected {})", dump, z, sw, want_kind));
+                    }
+                }
+            }
+        }
     }
 
     // ---- completeness / error-kind oracles for unperturbed derived sets ----
@@ -613,6 +740,49 @@ fn run_case(c: &mut Ctx, case: &Case, offs: &[i32]) {
                 c.count("complete:datetime:no-offset");
                 if szs != "err NotEnough" {
                     c.fail("to_datetime without offset and timestamp must be NotEnough", &format!("[{}] -> {}", dump, szs));
+                }
+            }
+            // to_datetime_with_timezone in the fixed zone of the real offset (the offset field is optional
+            // there): theorems to_datetime_with_timezone_complete_fields / _complete_timestamp /
+            // to_datetime_with_timezone_not_enough_iff
+            if z == off {
+                let want = if suff {
+                    let u = l.checked_sub_offset(FixedOffset::east_opt(off).unwrap()).unwrap();
+                    format!("ok {} {}", sdt(&u), off)
+                } else {
+                    "err NotEnough".to_string()
+                };
+                c.count(if suff { "complete:tz:sufficient" } else { "complete:tz:insufficient" });
+                if sw != want {
+                    c.fail("derived zone-aware fields (to_datetime_with_timezone, fixed zone): wrong resolution", &format!("[{}] real {} tz {} -> {} (expected {})", dump, l, z, sw, want));
+                }
+            }
+        }
+    }
+    // ---- a leap-second value with the timestamp of the FOLLOWING second (theorems datetime_sound_fields for the
+    // field path, datetime_complete_timestamp_leap for the fall-back path, to_datetime_complete_*) ----
+    if let Some((l, off)) = case.plus_one {
+        let m = &case.mask;
+        let gy = group(m, YEAR, l.date().year() as i64);
+        let gi = group(m, IYEAR, l.date().iso_week().year() as i64);
+        let det = |g: Grp| g == Grp::Determinate || g == Grp::Empty;
+        if det(gy) && det(gi) {
+            let fields_path = date_sufficient(m, gy, gi) && time_sufficient(m);
+            // on the fall-back path the following second must itself be a representable local date-time
+            let next_ok = l.and_utc().timestamp() + 1 <= MAX_TS;
+            let r = guard(|| p.to_naive_datetime_with_offset(off));
+            let s = show(r, sdt);
+            let want = if fields_path || next_ok { format!("ok {}", sdt(&l)) } else { "err OutOfRange".to_string() };
+            c.count(if fields_path { "complete:leap-plus-one:fields" } else { "complete:leap-plus-one:via-timestamp" });
+            if s != want {
+                c.fail("leap second with the timestamp of the following second: wrong resolution", &format!("[{}] real {} off {} -> {} (expected {})", dump, l, off, s, want));
+            }
+            if (fields_path || next_ok) && (m[OFF] || off == 0) {
+                let u = l.checked_sub_offset(FixedOffset::east_opt(off).unwrap()).unwrap();
+                let want = format!("ok {} {}", sdt(&u), off);
+                c.count("complete:leap-plus-one:datetime");
+                if szs != want {
+                    c.fail("leap second with the timestamp of the following second (to_datetime): wrong resolution", &format!("[{}] real {} off {} -> {} (expected {})", dump, l, off, szs, want));
                 }
             }
         }
@@ -788,6 +958,105 @@ fn run_set_twice(c: &mut Ctx) {
             if k < 2 {
                 c.sample(&format!("set {} {} then {} -> {}", setter_name(i), a, b, s2));
             }
+        }
+    }
+}
+
+/// cross-setter consistency of the hour fields, exhaustively (theorems hour_setters_consistent /
+/// hour_setters_consistent_conv): after `set_hour(h)`, `set_ampm(pm)` is accepted iff `pm == (h >= 12)` and
+/// `set_hour12(v)` iff `v` is the 12-hour-clock reading of `h`; conversely after `set_ampm` + `set_hour12`,
+/// `set_hour(h)` is accepted iff `h` is that hour; an accepted call leaves the record unchanged
+fn run_hour_cross(c: &mut Ctx) {
+    let outcome = |r: &ParseResult<()>, p: &Parsed| match r {
+        Ok(()) => format!("ok {}", dump_parsed(p)),
+        Err(e) => format!("err {}", err_kind(e)),
+    };
+    for h in -1i64..=24 {
+        let mut p1 = Parsed::new();
+        let r1 = p1.set_hour(h);
+        c.op(&format!("pr.set hour {} {}", h, dump_parsed(&Parsed::new())), &outcome(&r1, &p1));
+        if r1.is_ok() != (0..=23).contains(&h) {
+            c.fail("set_hour: accepted range is not 0..=23", &format!("{}", h));
+        }
+        if r1.is_err() {
+            continue;
+        }
+        let mid = dump_parsed(&p1);
+        for pm in [false, true] {
+            let mut p2 = p1.clone();
+            let r2 = p2.set_ampm(pm);
+            let s2 = outcome(&r2, &p2);
+            c.op(&format!("pr.set ampm {} {}", pm as i64, mid), &s2);
+            let want = if pm == (h >= 12) { format!("ok {}", mid) } else { "err Impossible".to_string() };
+            c.count("hourcross:ampm-after-hour");
+            if s2 != want {
+                c.fail("set_ampm after set_hour: accepted iff it is the half of the day of the hour", &format!("hour {} then pm {} -> {} (expected {})", h, pm, s2, want));
+            }
+        }
+        for v in 0i64..=13 {
+            let mut p2 = p1.clone();
+            let r2 = p2.set_hour12(v);
+            let s2 = outcome(&r2, &p2);
+            c.op(&format!("pr.set hour12 {} {}", v, mid), &s2);
+            let want = if !(1..=12).contains(&v) {
+                "err OutOfRange".to_string()
+            } else if v % 12 == h % 12 {
+                format!("ok {}", mid)
+            } else {
+                "err Impossible".to_string()
+            };
+            c.count("hourcross:hour12-after-hour");
+            if s2 != want {
+                c.fail("set_hour12 after set_hour: accepted iff it is the 12-hour-clock reading of the hour", &format!("hour {} then hour12 {} -> {} (expected {})", h, v, s2, want));
+            }
+        }
+    }
+    for pm in [false, true] {
+        for v in 1i64..=12 {
+            let mut p2 = Parsed::new();
+            p2.set_ampm(pm).unwrap();
+            p2.set_hour12(v).unwrap();
+            let mid = dump_parsed(&p2);
+            for h in -1i64..=24 {
+                let mut p3 = p2.clone();
+                let r3 = p3.set_hour(h);
+                let s3 = outcome(&r3, &p3);
+                c.op(&format!("pr.set hour {} {}", h, mid), &s3);
+                let want = if !(0..=23).contains(&h) {
+                    "err OutOfRange".to_string()
+                } else if h == (if pm { 12 } else { 0 }) + v % 12 {
+                    format!("ok {}", mid)
+                } else {
+                    "err Impossible".to_string()
+                };
+                c.count("hourcross:hour-after-ampm-hour12");
+                if s3 != want {
+                    c.fail("set_hour after set_ampm and set_hour12: accepted iff it is the hour they denote", &format!("pm {} hour12 {} then hour {} -> {} (expected {})", pm, v, h, s3, want));
+                }
+            }
+            // the resolved time has that hour
+            p2.set_minute(0).unwrap();
+            let want_h = (if pm { 12 } else { 0 }) + (v % 12) as u32;
+            if p2.to_naive_time().map(|t| t.hour()) != Ok(want_h) {
+                c.fail("to_naive_time: hour is not the one denoted by am/pm and the 12-hour clock", &format!("pm {} hour12 {}", pm, v));
+            }
+        }
+    }
+    // Parsed::new() / default: NotEnough everywhere (theorem new_resolves_not_enough)
+    {
+        let p = Parsed::default();
+        let all_ne = p.to_naive_date().map_err(|e| err_kind(&e)) == Err("NotEnough".into())
+            && p.to_naive_time().map_err(|e| err_kind(&e)) == Err("NotEnough".into())
+            && p.to_naive_datetime_with_offset(0).map_err(|e| err_kind(&e)) == Err("NotEnough".into())
+            && p.to_naive_datetime_with_offset(i32::MIN).map_err(|e| err_kind(&e)) == Err("NotEnough".into())
+            && p.to_fixed_offset().map_err(|e| err_kind(&e)) == Err("NotEnough".into())
+            && p.to_datetime().map_err(|e| err_kind(&e)) == Err("NotEnough".into())
+            && p.to_datetime_with_timezone(&chrono::Utc).map_err(|e| err_kind(&e)) == Err("NotEnough".into())
+            && p.to_datetime_with_timezone(&FixedOffset::east_opt(-3600).unwrap()).map_err(|e| err_kind(&e)) == Err("NotEnough".into())
+            && dump_parsed(&p) == dump_parsed(&Parsed::new());
+        c.count("new:not-enough");
+        if !all_ne {
+            c.fail("Parsed::new() / default must be NotEnough for every resolver", "");
         }
     }
 }
@@ -1249,13 +1518,13 @@ pub fn run(c: &mut Ctx) {
                 .clamp(tlo, thi);
                 f[i] = Some(nv);
                 let unchanged = old == Some(nv) || (i == WDAY && old.map(|v| v.rem_euclid(7)) == Some(nv.rem_euclid(7)));
-                Case { f, real: None, mask, class: if unchanged { "derived-same" } else { "perturbed" }, hint: if c.rng.chance(1, 2) { Some(off) } else { None } }
+                Case { f, real: None, mask, class: if unchanged { "derived-same" } else { "perturbed" }, hint: if c.rng.chance(1, 2) { Some(off) } else { None }, plus_one: None }
             } else if l.time().nanosecond() >= 1_000_000_000 && f[TS].is_some() && c.rng.chance(1, 2) {
                 // a leap second may also carry the timestamp of the following second
                 f[TS] = f[TS].map(|v| v + 1);
-                Case { f, real: None, mask, class: "derived-leap-plus-one", hint: Some(off) }
+                Case { f, real: None, mask, class: "derived-leap-plus-one", hint: Some(off), plus_one: Some((l, off)) }
             } else {
-                Case { f, real: Some((l, off)), mask, class: "derived", hint: None }
+                Case { f, real: Some((l, off)), mask, class: "derived", hint: None, plus_one: None }
             }
         } else {
             // ---- independent random values ----
@@ -1282,7 +1551,7 @@ pub fn run(c: &mut Ctx) {
                     });
                 }
             }
-            Case { f, real: None, mask: m, class: if directed { "random-small" } else { "random" }, hint: None }
+            Case { f, real: None, mask: m, class: if directed { "random-small" } else { "random" }, hint: None, plus_one: None }
         };
         c.count(&format!("fields:{:02}", case.f.iter().filter(|x| x.is_some()).count()));
         let offs = offsets_for(c, case.real.map(|r| r.1).or(case.hint));
@@ -1290,6 +1559,42 @@ pub fn run(c: &mut Ctx) {
         if k < 4 {
             c.sample(&format!("{} [{}] -> date {}", case.class, dump_parsed(&build(&case.f)), show(guard(|| build(&case.f).to_naive_date()), |d| d.to_string())));
         }
+    }
+
+    // ---- the zone stage after a successful naive stage: offsets outside +-24 h, UTC readings outside the
+    // representable range, offset fields contradicting the zone (classes kinds:datetime:naive-ok:*, kinds:tz:naive-ok:*) ----
+    for k in 0..c.n(3000, 30000) {
+        let mut m = [false; NF];
+        for i in [YEAR, MONTH, DAY, HDIV, HMOD, MIN, SEC, OFF] {
+            m[i] = true;
+        }
+        let (l, off) = if k % 3 == 0 {
+            // next to the ends of the range: the UTC reading may not be representable
+            let first = k % 2 == 0;
+            let d = if first { NaiveDate::MIN } else { NaiveDate::MAX };
+            let secs = if first { c.rng.range(0, 7200) as u32 } else { 86399 - c.rng.range(0, 7200) as u32 };
+            let t = NaiveTime::from_num_seconds_from_midnight_opt(secs, 0).unwrap();
+            let o = c.rng.range(1, 10800) as i32;
+            (d.and_time(t), if first { o } else { -o })
+        } else {
+            gen_real(c, &m)
+        };
+        let all = fields_of(&l, off);
+        let mut f: Fields = [None; NF];
+        for i in 0..NF {
+            if m[i] {
+                f[i] = all[i];
+            }
+        }
+        let hint = off;
+        if k % 3 == 1 {
+            f[OFF] = Some(*c.rng.pick(&[86400i64, -86400, 86401, 90000, -90000, i32::MAX as i64, i32::MIN as i64, 86399, -86399]));
+        } else if k % 3 == 2 {
+            // an offset field next to the zone's offset: run_case resolves in the zone `hint`
+            f[OFF] = Some(off as i64 + *c.rng.pick(&[1i64, -1, 3600, 0]));
+        }
+        let case = Case { f, real: None, mask: m, class: "zone-stage", hint: Some(hint), plus_one: None };
+        run_case(c, &case, &[off]);
     }
 
     // ---- week-number resolution: every (week, weekday) for boundary years ----
@@ -1357,5 +1662,6 @@ pub fn run(c: &mut Ctx) {
     }
 
     run_set_twice(c);
+    run_hour_cross(c);
     run_step_zones(c);
 }
